@@ -172,6 +172,15 @@ def judge_c20(case):
         if f["fault"] == "eval" and f.get("after_exit"):
             left = True  # raised by optyx's own post-solve evaluation of a callback: nothing can swallow it but optyx
         reach.judged += 1
+        if not left and f["fault"] in ("eval", "cbi") and f["exc"] not in (rec.get("cb_raised") or []) and evs:
+            # the evaluation raised inside one of optyx's own callbacks and the exception never
+            # reached the solver: optyx itself swallowed it.  "If ... any callback raises ... the call
+            # either returns a FAILED solution or propagates the exception" still applies.
+            reach.probe("evaluation-fault-did-not-reach-the-solver")
+            outcome = obs.get("status") or ("exc:" + str(obs.get("exc")))
+            if not (obs.get("status") == "failed" or obs.get("exc") == f["exc"]):
+                findings.append(_finding("C20", "fault-outcome", rec, f"injected {f['exc']} in a {f.get('kind')} evaluation was swallowed inside optyx's own callback; solve gave {outcome}"))
+            continue
         if not left:
             reach.probe("fault-swallowed-inside-scipy")
             continue
